@@ -601,7 +601,8 @@ class ExitStateSpec(Spec):
     ghost_modifies = GHOSTS
 
     def __init__(self):
-        self.calls = {"self.propagate_if_changed": AnalysisPropagateSpec()}
+        # lattice.mark_live is not called by the current body; its contract is supplied so that a rewrite through it is decided and not merely out of the subset
+        self.calls = {"self.propagate_if_changed": AnalysisPropagateSpec(), "lattice.mark_live": LivenessSpec("mark_live")}
 
     def bind(self, st, a, inst):
         return dict(CR)
